@@ -1127,6 +1127,45 @@ func c33Check(w *c33World, s *c33State, dir, cmd string, res *c33StateResult) ([
 		}
 	}
 
+	// (1b) the same preview on a copy of the index directory that also holds what interrupted runs and
+	// other tools leave behind (a half-written shard *.tmp, an orphaned sidecar, a foreign file, a
+	// sub-directory): a preview must not touch any of it either, and must announce the same
+	{
+		sp := filepath.Join(dir, "stray", "idx")
+		if err := c33CopyIndex(idx, sp); err != nil {
+			return nil, err
+		}
+		if err := os.MkdirAll(filepath.Join(sp, "subdir"), 0o755); err != nil {
+			return nil, err
+		}
+		for name, content := range map[string]string{
+			"leftover_v16.00000.zoekt.4711.tmp": "half written shard", "ghost_v16.00000.zoekt.meta": "{}", "NOTES.txt": "not an index file", "subdir/inner.zoekt.tmp": "x",
+		} {
+			if err := os.WriteFile(filepath.Join(sp, name), []byte(content), 0o644); err != nil {
+				return nil, err
+			}
+		}
+		sb := c33Snapshot(sp)
+		outS, errS := c33Run(dir, sp, cmd)
+		sa := c33Snapshot(sp)
+		res.Evals++
+		if d := c33Diff(sb, sa); d != "" {
+			res.Viols = append(res.Viols, c33Viol{
+				Key:    "C33 preview changed an index directory that holds leftover files cmd=" + cmd + " state=" + s.key(),
+				Detail: fmt.Sprintf("ops=%v\ncmd=%s (preview) on the state's index directory plus leftover_v16.00000.zoekt.4711.tmp, ghost_v16.00000.zoekt.meta, NOTES.txt, subdir/inner.zoekt.tmp\ndifference: %s\noutput:\n%s\nerr=%v", s.Ops, cmd, d, outS, errS),
+				CaseID: caseID,
+			})
+		}
+		if (errS == nil) == (errP == nil) && strings.ReplaceAll(outS, sp, idx) != outP {
+			res.Viols = append(res.Viols, c33Viol{
+				Key:    "C33 preview announces something else when the index directory holds leftover files cmd=" + cmd + " state=" + s.key(),
+				Detail: fmt.Sprintf("ops=%v\ncmd=%s (preview)\nwithout leftovers (err=%v):\n%s\nwith leftovers (err=%v):\n%s", s.Ops, cmd, errP, outP, errS, outS),
+				CaseID: caseID,
+			})
+		}
+		os.RemoveAll(filepath.Join(dir, "stray"))
+	}
+
 	// (2) the same command with -f on a copy of the index directory
 	cp := filepath.Join(dir, "run", "idx")
 	if err := c33CopyIndex(idx, cp); err != nil {
